@@ -479,6 +479,136 @@ def job_apply_inductive(boxtype, seed):
     return obs
 
 
+class SymVec:
+    """std::vector of symbolic length: every element is 'the generic element' e (an expression in a per-element symbol); size is a symbolic integer.
+    Sound for code that treats all elements alike (std::accumulate / transform / copy and loops whose body only touches index i)."""
+    def __init__(s, size, elem):
+        s.size_, s.elem = size, elem
+    def call(s, name, args):
+        if name == 'size': return s.size_
+        if name == 'begin': return ('it', s, 'begin')
+        if name == 'end': return ('it', s, 'end')
+        if name == 'resize':
+            s.size_ = args[0]; s.elem = D(rvc.fresh('uninit')); return None
+        if name == 'empty': raise rvc.Unsupported('empty() of a vector of symbolic length')
+        raise rvc.Unsupported('vector::' + name)
+    def index_ref(s, idx):
+        return rvc.Ref(lambda: s.elem, lambda v: setattr(s, 'elem', v))
+
+
+def job_init_inductive(has_d, seed):
+    """Map_Sphere::Initialize for ANY number of parents: std::accumulate / transform / copy by their contracts on vectors of symbolic length, the two index loops by per-iteration contracts"""
+    rvc.reset()
+    fns = map_fns()
+    fn = fns['Initialize'][0]
+    F = 'Map_Sphere::Initialize'
+    mfs = [{'name': F, 'file': 'csg/src/libcsg/map.cc', 'ast_nodes': rvc.node_count(fn), 'route': 'RVC, vectors of symbolic length, loops closed by per-iteration contracts (unbounded parent count)'}]
+    obs = []
+    stmts = rvc.body_of(fn)['inner']
+    loops = [i for i, st in enumerate(stmts) if st['kind'] == 'ForStmt']
+    if len(loops) != 2:
+        raise core.Undecided('Map_Sphere::Initialize: expected two index loops, found %d' % len(loops))
+    wi, di, Sw, Sd = sp.Symbol('w_i', real=True), sp.Symbol('d_i', real=True), sp.Symbol('S_w', real=True), sp.Symbol('S_d', real=True)
+    nb, nw, nd = [sp.Symbol(k, integer=True, nonnegative=True) for k in ('n_beads', 'n_weights', 'n_d')]
+    isym = sp.Symbol('i', integer=True, nonnegative=True)
+    P = rvc.Paths()
+    while True:
+        P.start()
+        rvc.CTX.base = [z3.Int(k) >= 0 for k in ('n_beads', 'n_weights', 'n_d', 'i')] + [z3.Real('S_w') != 0, z3.Real('S_d') != 0]
+        added = []
+        sums = []
+        def tokens(key):
+            if key == ('value', 'weights'): return SymVec(SInt(nw), D(wi))
+            if key == ('value', 'd'): return SymVec(SInt(nd), D(di))
+            if key == ('value', 'beads'): return SymVec(SInt(nb), 'NAME_i')
+            raise rvc.Unsupported('tokens of %s' % (key,))
+        class TokS(Tok):
+            def call(s_, name, args):
+                if name == 'ToVector': return tokens(s_.key)
+                raise rvc.Unsupported('Tokenizer::' + name)
+        def decl(ex_, vd, ty, inner):
+            if 'Tokenizer' in ty:
+                ce = inner[0]
+                while ce['kind'] not in ('CXXConstructExpr', 'CXXTemporaryObjectExpr'):
+                    ce = ce['inner'][0]
+                return TokS(rvc.rval(ex_.expr(ce['inner'][0])))
+            if re.search(r'vector<double', ty) and (not inner or not inner[0].get('inner')):
+                return SymVec(0, D(rvc.fresh('uninit')))
+            return NotImplemented
+        def construct(ex_, nn, ty, args):
+            if 'Tokenizer' in ty:
+                return TokS(rvc.rval(ex_.expr(args[0])))
+            if 'basic_string' in nn['type'].get('desugaredQualType', ty) or ty in ('std::string', 'string'):
+                return rvc.rval(ex_.expr(args[0])) if args else ''
+            return NotImplemented
+        def accumulate(a, b, init):
+            if not (isinstance(a, tuple) and a[0] == 'it' and a[2] == 'begin' and b[1] is a[1] and b[2] == 'end'):
+                raise rvc.Unsupported('std::accumulate over something else than a whole vector')
+            e = D.lift(a[1].elem).v
+            if e == wi: sums.append('w'); return D.lift(init) + D(Sw)
+            if e == di: sums.append('d'); return D.lift(init) + D(Sd)
+            raise rvc.Unsupported('std::accumulate over a vector whose element is %s' % e)
+        def transform(a, b, dst, f):
+            if not (a[2] == 'begin' and b[1] is a[1] and b[2] == 'end' and dst[2] == 'begin'):
+                raise rvc.Unsupported('std::transform over something else than whole vectors')
+            dst[1].elem = rvc.rval(f(a[1].elem))
+        def copy(a, b, dst):
+            if not (a[2] == 'begin' and b[1] is a[1] and b[2] == 'end' and dst[2] == 'begin'):
+                raise rvc.Unsupported('std::copy over something else than whole vectors')
+            dst[1].elem = a[1].elem
+        cb = {'decide': P.decide, 'decl': decl, 'construct': construct, 'get': lambda p, key: Prop(key), 'value': lambda p: ('value', p.path), 'exists': lambda p, key: has_d if key == 'd' else True, 'as': lambda p: 'str',
+              'getBeadByName': lambda mol, nm: SInt(sp.Symbol('iin', integer=True)) if nm == 'NAME_i' else (_ for _ in ()).throw(rvc.Unsupported('getBeadByName(%r)' % (nm,))),
+              'getBead': lambda mol, k: ('bead', SInt.ex(k)), 'AddElem': lambda o, b, w_, f_: added.append((b, D.lift(w_).v, D.lift(f_).v)), 'accumulate': accumulate, 'transform': transform, 'copy': copy}
+        this = {'matrix_': [], 'in_': None, 'out_': None, 'opts_map_': None, 'opts_bead_': None}
+        ex = Exec({'in': 'MOL', 'out': 'OUT', 'opts_bead': Prop('bead'), 'opts_map': Prop('map')}, cb, fns, this)
+        tag = '%s.p%d' % ('d' if has_d else 'nod', P.count)
+        status = 'ok'
+        rvc.CTX.base.append(z3.Int('iin') >= -5)
+        try:
+            for st in stmts[:loops[0]]:
+                ex.stmt(st)
+            # loop 1 (force weights) for an arbitrary index
+            l1 = stmts[loops[0]]
+            iname = l1['inner'][0]['inner'][0]['name']
+            ex.env[iname] = SInt(isym)
+            ex.stmt(l1['inner'][4])
+            # loop 2 (AddElem) for an arbitrary index
+            for st in stmts[loops[0] + 1:loops[1]]:
+                ex.stmt(st)
+            l2 = stmts[loops[1]]
+            ex.env[l2['inner'][0]['inner'][0]['name']] = SInt(isym)
+            ex.stmt(l2['inner'][4])
+        except Thrown:
+            status = 'thrown'
+        except Ret:
+            pass
+        zw, zd = z3.Real('w_i'), z3.Real('d_i')
+        sizes_ok = z3.And(z3.Int('n_beads') == z3.Int('n_weights'), z3.Int('n_beads') == z3.Int('n_d')) if has_d else (z3.Int('n_beads') == z3.Int('n_weights'))
+        if status == 'thrown':
+            claim = z3.Or(z3.Not(sizes_ok), z3.And(zw == 0, zd != 0) if has_d else z3.BoolVal(False), z3.Int('iin') < 0)
+            o = rvc.logic('C01.init.ind/%s/reject' % tag, F, 'an error is raised only for mismatching counts, a parent with weight 0 but d != 0, or an unknown bead name', claim, pc=P.pc)
+            o['functions'] = mfs; obs.append(o)
+        else:
+            o = rvc.logic('C01.init.ind/%s/accept' % tag, F, 'accepted only with matching counts, no parent with weight 0 and d != 0, known bead names', z3.And(sizes_ok, z3.Not(z3.And(zw == 0, zd != 0)) if has_d else z3.BoolVal(True), z3.Int('iin') >= 0), pc=P.pc)
+            o['functions'] = mfs; obs.append(o)
+            ok = len(added) == 1 and added[0][0] == ('bead', sp.Symbol('iin', integer=True))
+            o = Ob('C01.init.ind/%s/element' % tag, F, 'parent i contributes exactly one map element, for the bead its name resolves to', 'RVC', 'symbolic execution', core.PROVED if ok else core.REFUTED, 0, str(added)[:200], witness=None if ok else {})
+            o['functions'] = mfs; obs.append(o)
+            if ok:
+                o = rvc.identity('C01.init.ind/%s/weight' % tag, F, 'weight of parent i == w_i / sum_j w_j (so the weights sum to one)', added[0][1], wi / Sw, seed)
+                o['functions'] = mfs; obs.append(o)
+                wzero = rvc.logic('x', 'x', 'x', zw == 0, pc=P.pc)['status'] == core.PROVED
+                expf = sp.Integer(0) if wzero else ((di / Sd) / (wi / Sw) if has_d else sp.Integer(1))
+                o = rvc.identity('C01.init.ind/%s/fweight' % tag, F, 'force weight of parent i == (d_i / sum d) / (w_i / sum w) (1 without a d vector; 0 for a parent of weight 0)', added[0][2], expf, seed)
+                o['functions'] = mfs; obs.append(o)
+            okS = sums == (['w', 'd'] if has_d else ['w'])
+            o = Ob('C01.init.ind/%s/sums' % tag, F, 'the normalisations use the sum of the weights and (if given) the sum of the d coefficients, each computed once over the whole vector', 'RVC', 'symbolic execution', core.PROVED if okS else core.REFUTED, 0, str(sums), witness=None if okS else {})
+            o['functions'] = mfs; obs.append(o)
+        if not P.next():
+            break
+    return obs
+
+
 def job_topmap(seed):
     """TopologyMap::Apply: step, time and box of the output topology are set from the input BEFORE the bead maps run, and the maps get the OUTPUT boundary"""
     rvc.reset()
@@ -561,6 +691,8 @@ def run(tier, seed, only=None):
     jobs.append((job_topmap, (seed,)))
     for bt in (1, 2, 3):
         jobs.append((job_apply_inductive, (bt, seed)))
+    for hd in (False, True):
+        jobs.append((job_init_inductive, (hd, seed)))
     if only:
         jobs = [j for j in jobs if re.search(only, j[0].__name__ + str(j[1]))]
     obs = core.pmap(jobs)
